@@ -294,7 +294,7 @@ def continuations(rec, log, sess, design, uid, scenario, repair=None, repaired_d
             fresh["D"] = fresh_digest(repaired_design, uid)
             log.call("repair-retry", "D", True, True, lambda: h.to_proto(top))
         except Exception as e:
-            rec.count("repair.not-applicable")
+            rec.count("trace.repair-refused-at-edit")  # the library refuses the edit itself: an accepted outcome ("... or raises")
     check_trace(rec, log, fresh, scenario)
 
 
